@@ -16,10 +16,30 @@
 #include <fcntl.h>
 #include <sys/wait.h>
 
+#define C10_API_BANDIT_TOPTWO_HANG_WITNESS
+#include "c10_api_bandit.hpp"
+#include "c10_api_futils.hpp"
+#include "c10_api_utils.hpp"
+#if __has_include("c10_api_fmdp.hpp") && !defined(C10_NO_FMDP)
+#define C10_API_FMDP_NO_TINY_TORUS
+#include "c10_api_fmdp.hpp"
+#define C10_HAVE_FMDP 1
+#endif
+#if __has_include("c10_api_mdp.hpp") && !defined(C10_NO_MDP)
+#include "c10_api_mdp.hpp"
+#define C10_HAVE_MDP 1
+#endif
+#include <AIToolbox/Bandit/Policies/TopTwoThompsonSamplingPolicy.hpp>
+#include <AIToolbox/Factored/Utils/APSP.hpp>
+#include <AIToolbox/POMDP/Utils.hpp>
+#include <AIToolbox/POMDP/Algorithms/Utils/BeliefGenerator.hpp>
+#include <AIToolbox/Utils/Probability.hpp>
+
 using namespace verif;
 namespace F = AIToolbox::Factored;
 
 static std::vector<F::Factors> g_spaces;
+static bool g_thorough = false;
 static void build_spaces(int maxFactors, int maxSize) {
     g_spaces.clear();
     for (int n = 1; n <= maxFactors; ++n) {
@@ -37,6 +57,7 @@ static void build_subset_shapes(size_t maxN);
 static long n_util(const std::string & tier);
 long verif::verif_ncases(const std::string & tier) {
     if (tier == "thorough") build_spaces(4, 3); else build_spaces(3, 2);
+    g_thorough = tier == "thorough";
     build_subset_shapes(tier == "thorough" ? 8 : 6);
     return (long)g_spaces.size() + (tier == "thorough" ? 2000 : 200) + (tier == "thorough" ? 400 : 60) + (tier == "thorough" ? 600 : 80) + n_util(tier);
 }
@@ -279,13 +300,13 @@ static void choose_case(Rng & rng, bool exhaustive) {
 // A call that may be undefined behaviour on the tree as found runs in a forked child (stderr/stdout to /dev/null): the parent reports
 // `C10 guard <component> <clause> | <1 = child returned 0 / 0 = child died or returned non-zero>` and carries on.
 template <class Fn>
-static void guarded(const char * comp, const char * clause, Fn fn) {
+static void guarded(const char * comp, const char * clause, Fn fn, unsigned seconds = 20) {
     std::fflush(stdout); std::fflush(stderr);
     const pid_t pid = fork();
     if (pid == 0) {
         const int dn = open("/dev/null", O_WRONLY);
         if (dn >= 0) { dup2(dn, 2); dup2(dn, 1); }
-        alarm(20);
+        alarm(seconds);
         _exit(fn() ? 0 : 1);
     }
     int st = 0; bool ok = false;
@@ -341,19 +362,84 @@ static void fg_history_case(Rng & rng) {
     Line r; r << "C10" << "range" << "FactorGraph.variableSize_counts_active" << "|" << (g.variableSize() == (size_t)std::count(erased.begin(), erased.end(), false)); r.emit();
 }
 
+// ---------------------------------------------------------------------------------------------------------------
+// Public-API sweep (round 4): documented call sequences, with valid arguments, for the public functions that no harness referenced
+// (tools/api_coverage.py); written per library area in harness/c10_api_*.hpp, each call with a cheap certain oracle.
+static long n_api(const std::string & tier) { return tier == "thorough" ? 1000 : 150; }
+static void api_case(Rng & rng, long u) {
+    if (u == 0) {
+        // witnesses of open findings that would take the process down (or never return): forked
+        guarded("TopTwoThompsonSamplingPolicy.sampleAction", "never_returns_with_constant_rewards", [] {
+            AIToolbox::Bandit::Experience exp(2);
+            exp.record(0, 1.0); exp.record(0, 1.0); exp.record(1, 0.0); exp.record(1, 0.0);
+            AIToolbox::Bandit::TopTwoThompsonSamplingPolicy p(exp, 0.0);
+            return p.sampleAction() < 2; }, 3);
+#ifdef C10_HAVE_FMDP
+        guarded("TigerAntelope", "tiny_torus", [&] { c10api::fmdp_detail::groupTigerTinyTorus(rng); return true; });
+#endif
+        guarded("APSP", "graph_with_erased_variable", [] {
+            FG g(6); g.getFactor({4, 5}); g.erase(0);
+            return AIToolbox::Factored::APSP(g) == 1; });
+        return;
+    }
+    const long k = (u - 1) / 5;
+    switch ((u - 1) % 5) {
+        case 0: c10api::api_bandit(rng, k); break;
+        case 1: c10api::api_futils(rng, k); break;
+        case 2: c10api::api_utils(rng, k); break;
+#ifdef C10_HAVE_FMDP
+        case 3: c10api::api_fmdp(rng, k); break;
+#endif
+#ifdef C10_HAVE_MDP
+        case 4: c10api::api_mdp(rng, k); break;
+#endif
+        default: break;
+    }
+}
+
+// BeliefGenerator (both overloads): the in-place partition of the belief list with its double swap (Lean: BGCursor.selectLoop_total) runs on
+// random POMDPs; only what the documentation promises is required of the result: every entry a probability vector of the right size,
+// at most the requested number, the caller's beliefs still at the front.
+static void beliefgen_case(Rng & rng) {
+    namespace P = AIToolbox::POMDP;
+    AIToolbox::Seeder::setRootSeed((unsigned)rng.next());
+    const size_t S = 1 + rng.below(4), A = 1 + rng.below(3), O = 1 + rng.below(3);
+    PomdpTables t = randomPomdp(rng, S, A, O);
+    auto m = toDense(t);
+    P::BeliefGenerator<decltype(m)> bg(m);
+    const size_t want = rng.coin(1, 4) ? 1 + rng.below(S) : S + 1 + rng.below(14);
+    stat(want <= S ? "beliefgen_fewer_than_corners" : want <= S + 2 ? "beliefgen_few_extra" : "beliefgen_many");
+    auto bl = bg(want);
+    bool ok = bl.size() <= std::max(want, (size_t)1) + S;           // "tries to generate": never more than asked (the corners are added first)
+    for (const auto & b : bl) ok = ok && (size_t)b.size() == S && AIToolbox::isProbability(S, b);
+    Line l; l << "C10" << "range" << "BeliefGenerator(n).beliefs_are_probabilities" << "|" << ok; l.emit();
+    // the list overload, starting from the caller's own beliefs
+    std::vector<P::Belief> mine; const size_t n0 = 1 + rng.below(3);
+    for (size_t i = 0; i < n0; ++i) mine.push_back(dyadicBelief(rng, S));
+    const auto keep = mine;
+    const size_t want2 = n0 + rng.below(10);
+    bg(want2, &mine);
+    bool ok2 = true;
+    for (const auto & b : mine) ok2 = ok2 && (size_t)b.size() == S && AIToolbox::isProbability(S, b);
+    for (size_t i = 0; i < std::min(keep.size(), mine.size()) && i < want2; ++i) ok2 = ok2 && keep[i] == mine[i];
+    Line r; r << "C10" << "range" << "BeliefGenerator(n,list).extends_callers_list_with_probabilities" << "|" << ok2; r.emit();
+}
+
 // all (n, k, lo) with 1 <= k <= n <= maxN, lo in {0, 3}: index -> shape
 static std::vector<std::array<size_t, 3>> g_subsetShapes;
 static void build_subset_shapes(size_t maxN) {
     g_subsetShapes.clear();
     for (size_t n = 1; n <= maxN; ++n) for (size_t k = 1; k <= n; ++k) for (size_t lo : {size_t(0), size_t(3)}) g_subsetShapes.push_back({n, k, lo});
 }
-static long n_util(const std::string & tier) { return (long)g_subsetShapes.size() + 1 + (tier == "thorough" ? 1500 : 150); }
+static long n_util(const std::string & tier) { return (long)g_subsetShapes.size() + 1 + (tier == "thorough" ? 1500 : 150) + n_api(tier); }
 static void util_case(Rng & rng, long u) {
     if (u < (long)g_subsetShapes.size()) { auto [n, k, lo] = g_subsetShapes[u]; subset_case(k, lo, lo + n); return; }
     u -= (long)g_subsetShapes.size();
+    { const long nPlain = 1 + (g_thorough ? 1500 : 150); if (u >= nPlain) { api_case(rng, u - nPlain); return; } }
     if (u == 0) { choose_case(rng, true); naive_one_dimensional_case(rng); return; }
     union_case(rng); contains_case(rng); veccmp_case(rng); fg_history_case(rng);
     if (u % 3 == 0) choose_case(rng, false);
+    if (u % 3 == 1) beliefgen_case(rng);
     if (u % 25 == 1) naive_one_dimensional_case(rng);
     if (u % 10 == 0) { size_t n = 8 + rng.below(3), k = 1 + rng.below(n), lo = rng.below(5); subset_case(k, lo, lo + n); }
 }
